@@ -118,7 +118,7 @@ def transfer_leg(c, sc, beh, mode, keyfn):
             kinds.add(k)
         for n in r.get("notes", []):
             notes[n.get("round_trip_differs")] = notes.get(n.get("round_trip_differs"), 0) + 1
-    need = {"ConfigFullValue", "McpReq::SetToolSpec", "McpReq::SetServer", "McpReq::ImportFinished", "NamespaceReq::Update",
+    need = {"ConfigFullValue", "McpReq::SetToolSpec", "McpReq::SetServer", "McpReq::ImportFinished", "NamespaceReq::Set",
             "NamingReq::UpdateInstance", "TableManagerReq::Set"}
     if not need <= kinds:
         raise ToolError("transfer leg did not exercise the import request kinds %s" % sorted(need - kinds))
